@@ -46,9 +46,11 @@ def make_key_regex_filter(exclude_res, force_include_res=None):
     -------
     A callable which can be passed to `DicomStack` as the `meta_filter`.
     '''
-    exclude_re = re.compile('|'.join(['(?:' + regex + ')'
-                                      for regex in exclude_res])
-                           )
+    exclude_re = None
+    if exclude_res:
+        exclude_re = re.compile('|'.join(['(?:' + regex + ')'
+                                          for regex in exclude_res])
+                               )
     include_re = None
     if force_include_res:
         include_re = re.compile('|'.join(['(?:' + regex + ')'
@@ -56,7 +58,7 @@ def make_key_regex_filter(exclude_res, force_include_res=None):
                                )
 
     def key_regex_filter(key, value):
-        return (exclude_re.search(key) and
+        return (exclude_re and exclude_re.search(key) and
                 not (include_re and include_re.search(key)))
     return key_regex_filter
 
